@@ -31,7 +31,7 @@ def parseOptNat (s : String) : Option (Option Nat) :=
 def parseList (s : String) : Option (List Nat) :=
   if s == "-" then some [] else (s.splitOn ",").mapM String.toNat?
 
-def flagChars : List Char := "SRAGVCHPQrsdatm".toList
+def flagChars : List Char := "SRAGVCHPQrsdatmp".toList
 
 def parseBlk (kind flags mf idur ito cdur sdur sto ons : String) : Option Blk := do
   let k ← parseKind kind
@@ -44,7 +44,7 @@ def parseBlk (kind flags mf idur ito cdur sdur sto ons : String) : Option Blk :=
          fInitRegular := fl.contains 'G', fInitFromValue := fl.contains 'V', fCalc := fl.contains 'C'
          fHandler := fl.contains 'H', fStop := fl.contains 'P', fStopAsync := fl.contains 'Q'
          mainFailAt := mf
-         restored := fl.contains 'r', selfInit := fl.contains 's', hasInitdef := fl.contains 'd'
+         persistent := fl.contains 'p' || fl.contains 'r', restored := fl.contains 'r', selfInit := fl.contains 's', hasInitdef := fl.contains 'd'
          hasInitAsync := fl.contains 'a', stopData := fl.contains 't', armed := fl.contains 'm'
          initDur := ← idur.toNat?, initTimeout := ← ito.toNat?, cancelDur := ← cdur.toNat?
          stopDur := ← sdur.toNat?, stopTimeout := ← sto.toNat?, onSuccess := ons }
@@ -96,6 +96,9 @@ def handle (s : DState) : List String → DState × String
     | none => (s, "bad-op")
   | ["initres"] => match s.res with
     | some r => (s, joinOr (sortStrings (r.initRes.map fun e => s!"{e.k}:{e.time}:{e.res.render}")))
+    | none => (s, "bad-op")
+  | ["storage"] => match s.res with
+    | some r => (s, joinOr (sortStrings (r.storage.eraseDups.map fun k => s!"{k}")))
     | none => (s, "bad-op")
   | ["left"] => match s.res with
     | some r => (s, joinOr (sortStrings (r.tasks.map Task.render ++ r.timers.map fun k => s!"timer:{k}")))
